@@ -392,4 +392,7 @@ def bfs_parallel(M, depth, max_states=None, ops=None, deadline=None,
             break
     stats["states"] = len(seen)
     stats["frontier_left"] = len(frontier)
+    # a few of the deepest histories actually explored (for the evidence)
+    stats["sample_histories"] = [[list(op) for op in h]
+                                 for h in (frontier[:1] + frontier[-1:])]
     return stats, viols
